@@ -54,6 +54,7 @@ func (h *hstate) tip() *c05x.TipObs {
 // restart replaces the Chain by a fresh one over the same database: Init + PrepareCache, as Executer.Init does at start.
 func (h *hstate) restart() *c05x.RestartStep {
 	s := &c05x.RestartStep{Op: "restart", Pre: c05x.Dump(h.database)}
+	var fresh *blockchain.Chain
 	func() {
 		defer func() {
 			if r := recover(); r != nil {
@@ -67,9 +68,19 @@ func (h *hstate) restart() *c05x.RestartStep {
 			s.Err = c05x.Classify(err)
 			return
 		}
-		h.chain = chain
+		fresh = chain
 	}()
-	s.Post, s.TipAfter = c05x.Dump(h.database), h.tip()
+	s.Post = c05x.Dump(h.database)
+	if fresh != nil {
+		old := h.chain
+		h.chain = fresh
+		s.TipAfter = h.tip()
+		if s.TipAfter == nil {
+			// PrepareCache answered nil but left the cache empty (it swallows the error of reading the last block): the restarted
+			// node has no tip; the observation is recorded and the history goes on with the chain object it had
+			h.chain = old
+		}
+	}
 	return s
 }
 
